@@ -12,7 +12,7 @@ func Spec(tier string, seed uint64) *core.CheckSpec {
 	runs, pipe := 60000, 1500
 	budget := 4 * time.Minute
 	if tier == "thorough" {
-		runs, pipe = 1500000, 12000
+		runs, pipe = 10000000, 60000
 		budget = 25 * time.Minute
 	}
 	return &core.CheckSpec{
